@@ -42,6 +42,6 @@ def queries(ctx):
     qs += _take("C04", r"twice_file" if not thorough else r"twice_|out_", ctx, "output")
     qs += _take("C15", r"tree_d2" if not thorough else r".", ctx, "filter")
     qs += _take("C14", r"compositional_6" if not thorough else r"compositional", ctx, "filter")
-    qs += _take("C12", r"ds_(username|tty_username|egroup|group|eusername|login|rpname|cgroup)$" if not thorough else r"^ds_(?!cgroup_3lines)", ctx, "source")
+    qs += _take("C12", r"ds_(username|tty_username|egroup|group|eusername|login|rpname|cgroup)$" if not thorough else r"^ds_(?!cgroup_3lines|rpname_depth3)", ctx, "source")
     qs += _take("C09", r"rg_ev_(0_13|5_12|11_12)$" if not thorough else r"rg_ev_\d+_1[0-3]$", ctx, "threads")
     return qs
